@@ -68,3 +68,27 @@ func Apply(doc, patch string, o Options) (r Res) {
 	r.Panic = ev.Safe(func() { r.Out, r.Err = p.ApplyIndentWithOptions([]byte(doc), o.Indent, o.JP()) })
 	return r
 }
+
+// ParseCase reads a (document, patch) pair with the independent reader. A
+// non-empty third result names why the pair is outside every Apply property's
+// domain (not an object/array document, duplicate names, not an RFC 6902 patch).
+func ParseCase(doc, patch string) (*ref.V, []ref.Op, string) {
+	d, err := ref.Parse([]byte(doc))
+	if err != nil || !d.IsContainer() || d.HasDup() {
+		return nil, nil, "document not a duplicate-free object/array text"
+	}
+	pt, err := ref.Parse([]byte(patch))
+	if err != nil {
+		return nil, nil, "patch not well-formed"
+	}
+	ops, err := ref.OpsFromTree(pt)
+	if err != nil {
+		return nil, nil, "patch not an RFC 6902 document"
+	}
+	for _, op := range ops {
+		if op.Value != nil && op.Value.HasDup() {
+			return nil, nil, "patch value with duplicate names"
+		}
+	}
+	return d, ops, ""
+}
